@@ -130,6 +130,8 @@ def A(n):
     i = 0
     while i < n:
         x = yield tot * 100 + i
+        if x == 6:
+            raise KeyError('a')
         if x is not None:
             tot = tot + x
         i = i + 1
